@@ -98,6 +98,7 @@ type HookSpec struct {
 //	with    l.With() <Ops> .Logger()   (Ops may include stack/ctx/timestamp/caller pseudo values and "reset")
 //	hook    l.Hook(hooks...)
 //	level   l.Level(L)
+//	viactx  *zerolog.Ctx(l.WithContext(ctx))   (N=1: ctx already carries another logger; N=0 and l Disabled: the no-op logger)
 //	sample  l.Sample(...)  (Sampler: all | none | basicN)
 //	output  l.Output(new buffer)
 //	update  l.UpdateContext(Ops)  (only directly after a with step)
